@@ -7,7 +7,7 @@ META = {
                  "interleaved at every yield point with FIN/REQ/TOUCH/timeout scan/delivery/Empty; every schedule forced "
                  "on the real daemon (gated replay), followed by a real restart on the same data path and a drain, "
                  "compared with the model's prediction; plus randomized publish/consume histories with nsqd.Exit at a "
-                 "random moment, restart, drain and a two-lifetime ledger; NsqdTopic: shutdown at every yield point of topic-level operations and of the pump's copy round, real restart",
+                 "random moment (also right after the last FIN), restart (with idle restart cycles in between), drain and a ledger over the lifetimes; NsqdTopic: shutdown at every yield point of topic-level operations and of the pump's copy round, real restart",
     "design_ref": "5/C05",
 }
 
